@@ -207,6 +207,42 @@ func runC08(cfg *config) *Report {
 			continue
 		}
 		nlA, lpA, nlE, lpE := m[encCfg{false, false}], m[encCfg{true, false}], m[encCfg{false, true}], m[encCfg{true, true}]
+		// a long-lived Writer: it writes the file, ANOTHER Writer (other options, other destination) is created, the first
+		// writes the file again - each destination receives exactly the renderings of its own Writer
+		wopts := func(e encCfg) []icl.WriterOption {
+			var o []icl.WriterOption
+			if e.LP {
+				o = append(o, icl.WriteVariableLineLengthOption())
+			}
+			if e.EBCDIC {
+				o = append(o, icl.WriteEbcdicEncodingOption())
+			}
+			return o
+		}
+		for _, pair := range [][2]encCfg{{{false, false}, {true, true}}, {{true, false}, {false, true}}} {
+			a, b := m[pair[0]], m[pair[1]]
+			if len(a.out) == 0 || len(b.out) == 0 {
+				continue
+			}
+			var d1, d2 bytes.Buffer
+			w1 := icl.NewWriter(&d1, wopts(pair[0])...)
+			if w1.Write(f) != nil {
+				continue
+			}
+			w2 := icl.NewWriter(&d2, wopts(pair[1])...)
+			e1 := w1.Write(f)
+			w1.Flush()
+			rep.count("long-lived-writer")
+			if e1 == nil && (!bytes.Equal(d1.Bytes(), append(append([]byte{}, a.out...), a.out...)) || d2.Len() != 0) {
+				rep.violate(Violation{Key: "C08:long-lived-writer:" + pair[0].String(), What: fmt.Sprintf("a Writer used for a second Write after another Writer was created: its destination holds %d bytes (two renderings are %d), the other Writer's destination holds %d bytes before that Writer wrote anything", d1.Len(), 2*len(a.out), d2.Len()),
+					Replay: map[string]any{"tree": dumpFile(f), "first_writer": pair[0].String(), "second_writer": pair[1].String()}})
+				continue
+			}
+			if w2.Write(f) == nil && !bytes.Equal(d2.Bytes(), b.out) {
+				rep.violate(Violation{Key: "C08:long-lived-writer:" + pair[1].String(), What: "a Writer created while another one was in use does not emit the rendering of its own options",
+					Replay: map[string]any{"tree": dumpFile(f), "first_writer": pair[0].String(), "second_writer": pair[1].String()}})
+			}
+		}
 		rep.Evaluations++
 		rep.count("note:" + nlA.note)
 		rep.nontrivial(string(nlA.out))
